@@ -15,13 +15,16 @@ How a pandas operand pair is read as tables (done by the harness, `harness/c13.p
   fresh name `anon side position` (it can never be shared);
 * a scalar is the table with no level and one row; an array is positional (see `prmTbl`).
 
-Semantics (the code as it is after the repair of finding F-6, `tools/fixes/C13-align-equal-values.diff`):
-* no shared level name: cross join;
-* shared names: rows are paired when they agree on all shared levels.  A row without partner is kept (the other
-  payload is NaN) iff the other operand adds no level (its names are contained in this operand's names);
-  otherwise the real code *raises* (`IndexError`) when neither name set contains the other, or when the
-  operand with fewer levels has such a row and two or more levels are shared; and silently drops the row when
-  exactly one level is shared.
+Semantics (the code as it is after the repairs `tools/fixes/C13-align-equal-values.diff` (finding F-6) and
+`tools/fixes/C13-outer-join-nan-levels.diff` (finding contained-multi-shared-missing-key)):
+* no shared level name: cross join (nothing else: an empty operand gives an empty result);
+* shared names: rows are paired when they agree on all shared levels.  A row without partner is kept: the other
+  payload is NaN and the key is NaN (`none`) at the levels the row's operand does not have (outer join) -
+  except when the row's operand has exactly ONE level and the other operand has two or more (pandas joins a
+  flat index with a MultiIndex "on the level" and leaves out the flat operand's partner-less labels): then the
+  row is silently dropped.
+The Broadcaster always returns for a pandas parameter; the only modelled error is the documented `ValueError`
+for an array of a wrong length.
 No Mathlib.
 -/
 namespace PylifeVerif.Broadcast
@@ -89,10 +92,9 @@ def pairKey (ns on : List Name) (ko : Key) (pn : List Name) (kp : Key) : RKey :=
   ns.map (fun n => if n ∈ on then get on ko n else get pn kp n)
 
 def matched {V : Type} (ns : List Name) (obj prm : Tbl V) : List (Row V) :=
-  obj.rows.flatMap fun ro => prm.rows.filterMap fun rp =>
-    if agree obj.names ro.1 prm.names rp.1 then
-      some ⟨pairKey ns obj.names ro.1 prm.names rp.1, some ro.2, some rp.2⟩
-    else none
+  obj.rows.flatMap fun ro =>
+    (prm.rows.filter fun rp => agree obj.names ro.1 prm.names rp.1).map fun rp =>
+      ⟨pairKey ns obj.names ro.1 prm.names rp.1, some ro.2, some rp.2⟩
 
 def unmatchedObj {V : Type} (obj prm : Tbl V) : List (Key × V) :=
   obj.rows.filter fun ro => !(prm.rows.any fun rp => agree obj.names ro.1 prm.names rp.1)
@@ -101,7 +103,6 @@ def unmatchedPrm {V : Type} (obj prm : Tbl V) : List (Key × V) :=
   prm.rows.filter fun rp => !(obj.rows.any fun ro => agree obj.names ro.1 prm.names rp.1)
 
 inductive Err where
-  | indexError
   | valueError
   deriving DecidableEq, Repr
 
@@ -110,25 +111,24 @@ structure Joined (V : Type) where
   rows : List (Row V)
   deriving DecidableEq
 
-/-- the real code raises on this operand pair -/
-def raises {V : Type} (obj prm : Tbl V) : Bool :=
-  let keepO := subset prm.names obj.names
-  let keepP := subset obj.names prm.names
-  let multi := decide (2 ≤ (shared obj.names prm.names).length)
-  (!(unmatchedObj obj prm).isEmpty && !keepO && (!keepP || multi)) ||
-  (!(unmatchedPrm obj prm).isEmpty && !keepP && (!keepO || multi))
+/-- pandas' join "on a level": the operand `own` is flat (one level), `other` is a MultiIndex that has this level -/
+def dropsUnmatched (own other : List Name) : Bool :=
+  decide (own.length = 1) && decide (2 ≤ other.length) && subset own other
+
+/-- partner-less rows of the operand with the levels `own` are kept in the result -/
+def keepsUnmatched (own other : List Name) : Bool :=
+  !(shared own other).isEmpty && !dropsUnmatched own other
 
 def joinRows {V : Type} (obj prm : Tbl V) : List (Row V) :=
   let ns := resultNames obj.names prm.names
   matched ns obj prm
-    ++ (if subset prm.names obj.names then
+    ++ (if keepsUnmatched obj.names prm.names then
           (unmatchedObj obj prm).map fun ro => ⟨ns.map (get obj.names ro.1), some ro.2, none⟩ else [])
-    ++ (if subset obj.names prm.names then
+    ++ (if keepsUnmatched prm.names obj.names then
           (unmatchedPrm obj prm).map fun rp => ⟨ns.map (get prm.names rp.1), none, some rp.2⟩ else [])
 
-def broadcastTbl {V : Type} (obj prm : Tbl V) : Except Err (Joined V) :=
-  if raises obj prm then .error .indexError
-  else .ok ⟨resultNames obj.names prm.names, joinRows obj prm⟩
+def broadcastTbl {V : Type} (obj prm : Tbl V) : Joined V :=
+  ⟨resultNames obj.names prm.names, joinRows obj prm⟩
 
 /-- a returned table: result keys with a payload or NaN -/
 structure RTbl (V : Type) where
@@ -172,8 +172,6 @@ def broadcast {V : Type} (obj : Tbl V) (p : Prm V) : Except Err (Out V) :=
   match prmTbl obj p with
   | .error e => .error e
   | .ok t =>
-    match broadcastTbl obj t with
-    | .error e => .error e
-    | .ok j => .ok (split j)
+    .ok (split (broadcastTbl obj t))
 
 end PylifeVerif.Broadcast
